@@ -110,71 +110,125 @@ pub fn run_restore(a: &Args) {
 					continue;
 				}
 			};
+			let calls0 = world.node.st.lock().calls;
+			{
+				let mut st = world.node.st.lock();
+				st.call_log.clear();
+				st.log_calls = true;
+			}
 			if let Err(e) = rw.scan(None, false) {
 				rep.inconclusive(&format!("scan failed: {:?}", e));
 				continue;
 			}
-			// paths of this seed on chain = every path the original ever used whose commitment is in the UTXO set
-			let mut max_on_chain: std::collections::BTreeMap<String, u32> = Default::default();
-			for ((w, path), (commit, _, _, _)) in keypaths.iter() {
-				if *w != wi {
-					continue;
-				}
-				let c = grin_util::secp::pedersen::Commitment::from_vec(unhex(commit).unwrap());
-				if world.is_unspent(&c) {
-					let id = grin_keychain::Identifier::from_hex(path).unwrap();
-					let parent = idstr(&id.parent_path());
-					let n = id.to_path().last_path_index();
-					let e = max_on_chain.entry(parent).or_insert(0);
-					if n > *e {
-						*e = n;
+			let n_calls = world.node.st.lock().calls - calls0;
+			// ordinal (within the scan) of the last page of the UTXO listing: the repairs come right after it
+			let last_listing = {
+				let mut st = world.node.st.lock();
+				st.log_calls = false;
+				let l = st.call_log.iter().filter(|c| c.ends_with(":get_outputs_by_pmmr_index")).filter_map(|c| c.split(':').next().and_then(|n| n.parse::<u64>().ok())).max().map(|n| n - calls0).unwrap_or(n_calls);
+				st.call_log.clear();
+				l
+			};
+			judge_restored(&mut rep, &world, &rw, wi, &keypaths, hseed, "plain");
+			// The same restore, interrupted: the fresh wallet first receives a pending payment, then scans with
+			// delete_unconfirmed while one node call fails; the scan is then repeated without fault. What the
+			// first run restored must still count for the next path handed out.
+			rep.eval();
+			let fdir = format!("{}/restoredf{}", dir, wi);
+			let fw = match Wallet::create(world.node.clone(), &fdir, "restoredf", MNEMONICS[wi], "", false) {
+				Ok(w) => w,
+				Err(_) => continue,
+			};
+			let pend = (|| -> Result<(), grin_wallet_libwallet::Error> {
+				let s = world.wallets[1 - wi].init_send(grin_wallet_libwallet::InitTxArgs { amount: 150_000_000, minimum_confirmations: 1, selection_strategy_is_use_all: false, ..Default::default() })?;
+				fw.receive(&s, None).map(|_| ())
+			})();
+			let k = if rng.chance(2, 3) { last_listing + 1 + rng.below(2) } else { 2 + rng.below(n_calls + 2) }; // mostly right after the listing, where the repairs start
+			world.node.fail_kth_from_now(k);
+			let first = fw.scan(None, true);
+			world.node.clear_faults();
+			rep.count(&format!("restore:interrupted:first-scan-{}", if first.is_ok() { "completed(fault not reached)" } else { "failed" }));
+			if pend.is_err() {
+				rep.count("restore:interrupted:no-pending-receipt");
+			}
+			match fw.scan(None, true) {
+				Ok(_) => {
+					let had_restored = first.is_err() && !fw.all_outputs().unwrap_or_default().is_empty();
+					if judge_restored(&mut rep, &world, &fw, wi, &keypaths, hseed, "interrupted-then-repeated") && had_restored {
+						rep.count("restore:interrupted-scan-then-repeated:next-path-beyond-chain");
 					}
 				}
+				Err(e) => rep.inconclusive(&format!("repeated scan failed: {:?}", e)),
 			}
-			let mut ok = true;
-			for acct in rw.accounts().unwrap_or_default() {
-				let next = rw.child_index(&acct.path).unwrap_or(0);
-				if let Some(m) = max_on_chain.get(&idstr(&acct.path)) {
-					if next <= *m {
-						ok = false;
-						rep.violation("C15|restore-next-path-not-beyond-chain", &format!("restored wallet {} account {}: next derivation index {} is not beyond the highest index {} found on chain", wi, acct.label, next, m), json!({"job": "c15r", "history_seed": hseed, "wallet": wi}));
-					}
-				}
-			}
-			for (parent, m) in max_on_chain.iter() {
-				if !rw.accounts().unwrap_or_default().iter().any(|a| idstr(&a.path) == *parent) {
-					ok = false;
-					rep.violation("C15|restore-account-missing", &format!("restored wallet {}: account path {} (highest on-chain index {}) was not restored", wi, parent, m), json!({"job": "c15r", "history_seed": hseed, "wallet": wi}));
-				}
-			}
-			// new outputs after the restore must not collide with any path on chain
-			let before: std::collections::BTreeSet<String> = rw.all_outputs().unwrap_or_default().iter().map(|o| idstr(&o.key_id)).collect();
-			for acct in rw.accounts().unwrap_or_default() {
-				let _ = rw.set_account(&acct.label);
-				let bf = grin_wallet_libwallet::BlockFees { fees: 0, key_id: None, height: world.height() + 1 };
-				let _ = rw.build_coinbase(&bf);
-			}
-			for o in rw.all_outputs().unwrap_or_default() {
-				let k = idstr(&o.key_id);
-				if !before.contains(&k) && o.status == OutputStatus::Unconfirmed {
-					if let Some((commit, _, _, _)) = keypaths.get(&(wi, k.clone())) {
-						let c = grin_util::secp::pedersen::Commitment::from_vec(unhex(commit).unwrap());
-						if world.is_unspent(&c) {
-							ok = false;
-							rep.violation("C15|restored-wallet-reuses-chain-path", &format!("restored wallet {} handed out path {} which an on-chain output of this seed already uses", wi, k), json!({"job": "c15r", "history_seed": hseed}));
-						}
-					}
-				}
-			}
-			if ok {
-				rep.count("restore:next-path-beyond-chain");
-				rep.distinct(&("restore", wi, max_on_chain.len(), max_on_chain.values().cloned().max()));
-			}
+			let _ = world.wallets[1 - wi].refresh();
 		}
 		drop(world);
 		let _ = std::fs::remove_dir_all(&dir);
 	}
 	rep.write(&a.out);
+}
+
+/// Restore clause of C15: the next path a restored wallet hands out lies beyond every path of its seed on chain.
+fn judge_restored(rep: &mut Report, world: &World, rw: &Wallet, wi: usize, keypaths: &std::collections::BTreeMap<(usize, String), (String, u64, bool, usize)>, hseed: u64, variant: &str) -> bool {
+	use grin_wallet_libwallet::OutputStatus;
+	let case = json!({"job": "c15r", "history_seed": hseed, "wallet": wi, "restore": variant});
+	// paths of this seed on chain = every path the original ever used whose commitment is in the UTXO set
+	let mut max_on_chain: std::collections::BTreeMap<String, u32> = Default::default();
+	for ((w, path), (commit, _, _, _)) in keypaths.iter() {
+		if *w != wi {
+			continue;
+		}
+		let c = grin_util::secp::pedersen::Commitment::from_vec(unhex(commit).unwrap());
+		if world.is_unspent(&c) {
+			let id = grin_keychain::Identifier::from_hex(path).unwrap();
+			let parent = idstr(&id.parent_path());
+			let n = id.to_path().last_path_index();
+			let e = max_on_chain.entry(parent).or_insert(0);
+			if n > *e {
+				*e = n;
+			}
+		}
+	}
+	let mut ok = true;
+	for acct in rw.accounts().unwrap_or_default() {
+		let next = rw.child_index(&acct.path).unwrap_or(0);
+		if let Some(m) = max_on_chain.get(&idstr(&acct.path)) {
+			if next <= *m {
+				ok = false;
+				rep.violation("C15|restore-next-path-not-beyond-chain", &format!("restored wallet {} ({}) account {}: next derivation index {} is not beyond the highest index {} found on chain", wi, variant, acct.label, next, m), case.clone());
+			}
+		}
+	}
+	for (parent, m) in max_on_chain.iter() {
+		if !rw.accounts().unwrap_or_default().iter().any(|a| idstr(&a.path) == *parent) {
+			ok = false;
+			rep.violation("C15|restore-account-missing", &format!("restored wallet {} ({}): account path {} (highest on-chain index {}) was not restored", wi, variant, parent, m), case.clone());
+		}
+	}
+	// new outputs after the restore must not collide with any path on chain
+	let before: std::collections::BTreeSet<String> = rw.all_outputs().unwrap_or_default().iter().map(|o| idstr(&o.key_id)).collect();
+	for acct in rw.accounts().unwrap_or_default() {
+		let _ = rw.set_account(&acct.label);
+		let bf = grin_wallet_libwallet::BlockFees { fees: 0, key_id: None, height: world.height() + 1 };
+		let _ = rw.build_coinbase(&bf);
+	}
+	for o in rw.all_outputs().unwrap_or_default() {
+		let k = idstr(&o.key_id);
+		if !before.contains(&k) && o.status == OutputStatus::Unconfirmed {
+			if let Some((commit, _, _, _)) = keypaths.get(&(wi, k.clone())) {
+				let c = grin_util::secp::pedersen::Commitment::from_vec(unhex(commit).unwrap());
+				if world.is_unspent(&c) {
+					ok = false;
+					rep.violation("C15|restored-wallet-reuses-chain-path", &format!("restored wallet {} ({}) handed out path {} which an on-chain output of this seed already uses", wi, variant, k), case.clone());
+				}
+			}
+		}
+	}
+	if ok && variant == "plain" {
+		rep.count("restore:next-path-beyond-chain");
+		rep.distinct(&("restore", wi, max_on_chain.len(), max_on_chain.values().cloned().max()));
+	}
+	ok
 }
 
 /// A miner's account that is not the active one: coinbases are built into account `mining`, the wallet
